@@ -363,7 +363,8 @@ class QCow2Snapshot:
     def open(self) -> QCow2:
         disk = copy.copy(self.qcow2)
         disk.l1_table = self.l1_table
-        disk.seek(0)
+        # Reset the stream state, the copy must not serve data buffered by the active image
+        AlignedStream.__init__(disk, disk.size)
         return disk
 
     @cached_property
